@@ -324,6 +324,7 @@ func checkC06(ctx *Ctx) *Result {
 		r.ok("R6.2", "NewMiddleware and Reconfigure share one builder", 2, "")
 	}
 
+	wrapReturnsClosure(ctx, r, "R11.6")
 	// ---- R6.3 -----------------------------------------------------------
 	wp, e1 := p.ConstInt(pkgOrigins, "wildcardPort")
 	po, e2 := p.ConstInt(pkgOrigins, "portOffset")
